@@ -262,14 +262,17 @@ func (s *Sim) checkBuffers(ctx *StepCtx) {
 		g, err := decodeGPDU(o.B)
 		if err != nil {
 			s.violateAny([]string{"C14", "C13"}, "gpdu.wellformed", "gpdu:malformed", "re-injected datagram is not a well-formed G-PDU: %v (% x)", err, head(o.B, 48))
+			continue
 		}
 		if len(g.Payload) < 8 {
 			s.violateAny([]string{"C14", "C13"}, "gpdu.payload", "gpdu:payload-short", "re-injected payload of %d bytes", len(g.Payload))
+			continue
 		}
 		tag := be.Uint64(g.Payload[:8])
 		p := m.bufEmit[tag]
 		if p == nil {
 			s.violateAny([]string{"C13", "C14"}, "buf.known", "buf:unknown-packet", "re-injected packet was never handed up for buffering (% x)", head(g.Payload, 16))
+			continue
 		}
 		if !bytes.Equal(p.b, g.Payload) {
 			s.violate("C14", "gpdu.payload", "gpdu:payload-changed", "payload of packet %d changed: sent up % x, re-injected % x", tag, head(p.b, 24), head(g.Payload, 24))
@@ -464,10 +467,12 @@ func (s *Sim) checkNOCP(ctx *StepCtx) {
 		d, ok := u.Msg.find(ieDLDataReport)
 		if !ok {
 			s.violate("C13", "dldr.content", "dldr:no-report-ie", "downlink data report without Downlink Data Report IE")
+			continue
 		}
 		id, ok := d.kid(iePDRID)
 		if !ok || len(id.V) != 2 {
 			s.violate("C13", "dldr.content", "dldr:no-pdr", "downlink data report without PDR ID")
+			continue
 		}
 		got[fmt.Sprintf("%s/%#x/%d", u.Dst, u.Msg.SEID, be.Uint16(id.V))]++
 	}
